@@ -228,6 +228,7 @@ bool CoreSMTSolver::addOriginalClause_(vec<Lit> && _ps)
 bool CoreSMTSolver::addOriginalClause_(vec<Lit> && ps, pair<CRef, CRef> & inOutCRefs)
 {
     assert(decisionLevel() == 0);
+    OPENSMT_VERIF(verif::clause(verif::derivedDepth > 0 ? 'e' : 'i', ps));
     inOutCRefs = {CRef_Undef, CRef_Undef};
     if (!isOK()) { return false; }
     bool logProof = this->logsResolutionProof();
@@ -806,6 +807,7 @@ void CoreSMTSolver::analyze(CRef confl, vec<Lit>& out_learnt, int& out_btlevel)
         }
     }
     cleanup.clear();
+    OPENSMT_VERIF(verif::clause('l', out_learnt));
 //    for (int i = 0; i < out_learnt.size(); i++)
 //        printf("%d ", out_learnt[i]);
 //    printf("\n");
